@@ -13,6 +13,8 @@ INVARIANT DocAttached
 INVARIANT HeaderMirror
 INVARIANT FlagsMirror
 INVARIANT PrintsMirror
+INVARIANT RefsMirror
+INVARIANT RefsComplete
 INVARIANT AcceptIffValid
 INVARIANT ErrLineIsStatementLine
 INVARIANT PrintsBeforeError
